@@ -56,6 +56,12 @@ func runC06(c *Ctx, r *Report) {
 	importFoundation(c, r, "C06", "lock-paired")
 	r.Rule("C06/no-blind-consumer", "no library loop waits for device output through a queue read that does not observe the reader's exit", 1)
 	checkNoBlindConsumer(c, r, "C06/no-blind-consumer")
+	r.Rule("C06/waits-poll", "between two polls of Channel.Read the read-until loops only sleep (a transport error held out by the reader is taken within one read delay)", 4)
+	checkReadUntilWaitsPoll(c, r, "C06/waits-poll")
+	r.Rule("C06/patterns-compile", "every constant pattern the library compiles lazily is a valid expression (no panic on the first input that needs it)", 1)
+	checkPatternsCompile(c, r, "C06/patterns-compile", nil)
+	r.Rule("C06/repeat-guarded", "no strings.Repeat count is a difference that can go negative (the reader formats log lines before it hands an error on)", 1)
+	checkRepeatCountGuarded(c, r, "C06/repeat-guarded")
 	importFoundation(c, r, "C06", "callbacks")
 	importFoundation(c, r, "C06", "read-loop")
 	r.Rule("C06/conn-never-nil", "a connection handle of interface type that a transport invokes without a nil test is never reset to nil (a nil store makes the next Close / Write / Read panic instead of failing)", 1)
